@@ -34,6 +34,11 @@ Clauses (each names the sentence of the statement that licenses it)
 Sub-space `part-identities` merges parts that share their id and/or their name and abbreviation in every
 possible way (the parts of separately built or loaded scores are all called "P1"): the inputs of the statement
 are the parts at their positions in the list, whatever they are called.
+Sub-space `edited-scores` hands merge_parts the Score object itself after the score's flat part list was
+changed following construction (public item assignment `score[i] = part`, in-place edits of the documented list
+`score.parts`, assignment of a new list): every edit history to depth 2 over set / append / insert / delete /
+swap.  "The parts of a score" are then the parts it currently holds (Score.parts - what the score-level note
+array, len(), indexing and iteration read), not the parts it was constructed with.
 The convenience loader `load_score_as_part` (anchor) is run on written MusicXML files in sub-spaces
 `loader` and `loader-noteless` with the divisions, registration, voice and note-array clauses and with
 elements-present restricted to notes, rests and unpitched notes (identified by id).
@@ -76,6 +81,11 @@ ASSUMPTIONS = [
     "mc/ir.py builder (public construction API) is trusted to build what the description says",
     "'the first part' and the order of 'the parts of a score' are the depth-first order of the part/group "
     "tree (docstring of iter_parts: groups 'are traversed in a depth-first fashion'; Score.parts is built by it)",
+    "'the parts of a score' are the Part objects of its documented attribute Score.parts ('All Part objects') at the "
+    "time of the call: Score.__getitem__/__setitem__/__iter__/__len__ and Score.note_array (the score-level note array "
+    "the statement compares with) all read it; Score.part_structure (the grouping the score was constructed with, "
+    "which Score.__setitem__ does not update) does not decide which parts are merged.  Scores holding the same Part "
+    "twice, and groups whose children were changed after the Score was built, are not generated",
     "the MusicXML exporter/importer pair is trusted to keep ids, classes, voices and times of notes, rests and "
     "unpitched notes and the <divisions> of every part of the generated files (complete 4/4 measures)",
 ]
@@ -324,6 +334,12 @@ def check_order(res, case, arg, S, built=None):
         got = list(holder.parts)
         if not same(got):
             res.fail("parts-order", expected=exp, observed=show(got), where="Score.parts", detail="shape=%s" % case["shape"])
+        if "edits" in case:  # the other public views of the flat part list
+            for name, fn in (("Score.__iter__", lambda: list(holder)),
+                             ("Score.__getitem__", lambda: [holder[i] for i in range(len(holder))])):
+                ok, got = guarded(res, "parts-order", fn)
+                if ok and not same(got):
+                    res.fail("parts-order", expected=exp, observed=show(got), where=name, detail="shape=%s" % case["shape"])
     return holder
 
 
@@ -447,27 +463,54 @@ def check_score_array(res, case, sna, merged_rows):
 # ---------------------------------------------------------------------------------------------
 
 
+def build_arg(case, res, S, build_part):
+    """(argument for merge_parts, the Part objects it holds in order) built fresh from the case description;
+    (None, None) if an edit of sub-space `edited-scores` raised"""
+    if "edits" not in case:
+        parts = [build_part(p) for p in case["parts"]]
+        return M.make_container(case["shape"], parts, S), parts
+    pool = [build_part(p) for p in case["pool"]]
+    score = M.make_container(case["shape"].split(":", 1)[1], [pool[i] for i in case["init"]], S)
+    if case["pre"]:
+        # the score is read before it is edited (nothing may be remembered from it)
+        if len(case["init"]) > 1:
+            guarded(res, "score-note-array", score.note_array)
+        guarded(res, "parts-order", lambda: (len(score), list(score)))
+        res.transitions += 1
+    for e in case["edits"]:
+        ok, _ = guarded(res, "parts-order", M.do_edit, score, e["op"], e["how"], pool)
+        res.transitions += 1
+        if not ok:
+            return None, None
+    return score, [pool[i] for i in case["final"]]
+
+
 def eval_single(case, res):
     import partitura.score as S
     from mc.ir import build_part
     from mc.fingerprint import fp_part, diff
 
-    part = build_part(case["parts"][0])
-    arg = M.make_container(case["shape"], [part], S)
+    arg, parts = build_arg(case, res, S, build_part)
+    if arg is None:
+        res.outcome = "single:edit-exception"
+        return res
+    part = parts[0]
     fp0 = fp_part(part)
     ok, out = guarded(res, "merge", S.merge_parts, arg, case["mode"])
-    res.transitions = 1
+    res.transitions += 1
     if not ok:
         res.outcome = "single:exception"
         return res
     if out is not part:
-        res.fail("single-identity", expected="the input part itself", observed=type(out).__name__,
+        res.fail("single-identity", expected="the input part itself",
+                 observed=type(out).__name__ if "edits" not in case or not isinstance(out, S.Part) else
+                 "another Part (id %s, %d notes)" % (out.id, len(out.notes)),
                  where="merge_parts: single part", detail="shape=%s mode=%s" % (case["shape"], case["mode"]))
     fp1 = fp_part(part)
     if fp1 != fp0:
         res.fail("single-unchanged", expected="unchanged part", observed=diff(fp0, fp1)[:3],
                  where="merge_parts: single part", detail="shape=%s mode=%s" % (case["shape"], case["mode"]))
-    res.outcome = "single:%s:%s" % (case["shape"], "same" if out is part else "other")
+    res.outcome = "single:%s:%s" % (case["shape"] if "edits" not in case else "edited", "same" if out is part else "other")
     res.nontrivial = True
     return res
 
@@ -518,8 +561,10 @@ def eval_case(case):
         return eval_single(case, res)
     mode = case["mode"]
     stats = {}
-    parts = [build_part(p) for p in parts_spec]
-    arg = M.make_container(case["shape"], parts, S)
+    arg, parts = build_arg(case, res, S, build_part)
+    if arg is None:
+        res.outcome = "edit-exception"
+        return res
     ok, merged = guarded(res, "merge", S.merge_parts, arg, mode)
     res.transitions += 1
     rows = None
@@ -528,9 +573,8 @@ def eval_case(case):
         res.transitions += 2
 
     ref = M.sounding_rows(case)
-    parts2 = [build_part(p) for p in parts_spec]
-    arg2 = M.make_container(case["shape"], parts2, S)
-    holder = check_order(res, case, arg2, S, parts2)
+    arg2, parts2 = build_arg(case, res, S, build_part)
+    holder = check_order(res, case, arg2, S, parts2) if arg2 is not None else None
     res.transitions += 1
     if ref:
         if holder is not None:
@@ -546,7 +590,7 @@ def eval_case(case):
         res.outcome = "exception:%s" % mode
     else:
         nv = len({(int(r["voice"]), int(r["staff"])) for r in rows.values()}) if rows else 0
-        res.outcome = "%s:n%d:lcm%s:vs%d:%s" % (mode, len(parts_spec),
+        res.outcome = "%s%s:n%d:lcm%s:vs%d:%s" % ("ed:" if "edits" in case else "", mode, len(parts_spec),
                                                "=max" if L == max(pdivs(p) for p in parts_spec) else ">max",
                                                min(nv, 6), "ok" if not res.violations else "viol")
     return res
@@ -1170,6 +1214,64 @@ def gen_loader_noteless():
     return g
 
 
+EDIT_INIT_SHAPES = {1: ("score", "score-group"), 2: ("score", "score-group"), 3: ("score", "score-group", "score-mixed")}
+EDIT_DIVS = [(2, 3, 4, 6, 1), (1, 1, 1, 1, 1), (6, 4, 1, 3, 2), (3, 2, 3, 2, 4)]
+
+
+def mk_edited(k, shape, mode, n0, steps, pre):
+    """steps = [(op, how), ...] over part numbers: 0..n0-1 are the parts the Score is built with, higher numbers
+    the parts brought in by the edits"""
+    final = list(range(n0))
+    for op, _ in steps:
+        final = M.apply_edit(final, op)
+    npool = n0 + sum(1 for op, _ in steps if M.edit_adds(op))
+    ds = EDIT_DIVS[k % 4]
+    pool = [part_spec(i, ds[i], base_notes(i, ds[i])) for i in range(npool)]
+    c = mk("edited:" + shape, mode, [pool[i] for i in final], "edit:" + "+".join("%s/%s" % (op[0], how) for op, how in steps))
+    c.update(pool=pool, init=list(range(n0)), final=final, pre=pre,
+             edits=[{"op": op, "how": how} for op, how in steps])
+    return c
+
+
+def gen_edited(tier):
+    """a Score built from n0 parts (flat, in one group, or group + part), read or not, then edited, then handed
+    to merge_parts as it is"""
+    th = tier == "thorough"
+
+    def g():
+        k = 0
+        # one edit: every edit x every way of carrying it out
+        for n0 in (1, 2, 3):
+            for shape in EDIT_INIT_SHAPES[n0]:
+                for t, op in enumerate(M.edit_ops(n0, n0)):
+                    for h, how in enumerate(M.EDIT_HOWS[op[0]]):
+                        for mode in MODES:
+                            for pre in (0, 1):
+                                k += 1
+                                if not th and (MODES[(t + h) % 3] != mode or pre != (t + h + n0) % 2):
+                                    continue
+                                yield mk_edited(k, shape, mode, n0, [(op, how)], pre)
+        # two edits
+        for n0 in ((1, 2, 3) if th else (2,)):
+            for shape in EDIT_INIT_SHAPES[n0]:
+                t = 0
+                for op1 in M.edit_ops(n0, n0):
+                    l1 = M.apply_edit(list(range(n0)), op1)
+                    for op2 in M.edit_ops(len(l1), n0 + (1 if M.edit_adds(op1) else 0)):
+                        t += 1
+                        H1, H2 = M.EDIT_HOWS[op1[0]], M.EDIT_HOWS[op2[0]]
+                        if th:
+                            for h1 in H1:
+                                for h2 in H2:
+                                    k += 1
+                                    yield mk_edited(k, shape, MODES[(t + k) % 3], n0, [(op1, h1), (op2, h2)], (k // 3) % 2)
+                        else:
+                            k += 1
+                            yield mk_edited(k, shape, MODES[t % 3], n0, [(op1, H1[t % len(H1)]), (op2, H2[(t // 2) % len(H2)])],
+                                            (t // 3) % 2)
+    return g
+
+
 def spaces(tier, seed):
     th = tier == "thorough"
     sp = []
@@ -1246,6 +1348,18 @@ def spaces(tier, seed):
                     "(1,1,1)}" + (" + 4 more each" if th else "") + " x 3 modes; note ids stay distinct; shape cycled over 6 / 7" +
                     ("" if th else "; quick, 3 parts: name partition, labels and content cycled with the id partition "
                                    "(5 id partitions x 2 x 4 divisions triples x 3 modes)")))
+    sp.append(Space("edited-scores", gen_edited(tier), True,
+                    "merge_parts(score) on a Score built from n0 parts (distinct structure, divisions tuple cycled over 4) as a "
+                    "flat list, one group, or group + part (n0 = 3), then edited: an edit is set i := new part / append new / "
+                    "insert new at i / delete i (never the last part) / swap i, j, carried out by item access `score[i] = ..` "
+                    "(set, swap), by an in-place operation on `score.parts`, or by assigning a new list to `score.parts`; no part "
+                    "twice in a score.  One edit: n0 in {1,2,3} x 2-3 initial shapes x every edit (3; 8; 13) x every way (2-3) " +
+                    ("x 3 modes x (score read before the edit or not)" if th else
+                     "(mode and read-before-edit cycled)") + "; two edits: every sequence, n0 " +
+                    ("in {1,2,3} (19; 69; 178 sequences) x shapes x every pair of ways, mode and read-before-edit cycled" if th else
+                     "= 2 (69 sequences) x 2 shapes, ways, mode and read-before-edit cycled") +
+                    ".  Results of 1 part: identity clauses; of 2-5 parts: all clauses, against the parts the score holds "
+                    "after the edits (Score.parts, iteration and indexing compared with the list model)"))
     return sp
 
 
